@@ -575,7 +575,7 @@ var reviewedCursorCallers = map[string]string{
 var rulePanicP6 = &Rule{
 	Name:    "PANIC/P6-cursor-guard",
 	NeedSSA: true,
-	Text:    "every caller of LspServer.beginFileRequest compares the returned byte offset with len(contents) before using them (sibling agreement: definition, references, rename, highlight, signatureHelp, hover); a handler without the comparison indexes the buffer out of range at the end-of-buffer position — an unrecovered panic",
+	Text:    "every caller of LspServer.beginFileRequest compares the returned byte offset with len(contents) before using them, in a form that stops at offset == len(contents) (`offset >= len` / `offset < len`; sibling agreement: definition, references, rename, highlight, signatureHelp, hover); a handler without the comparison indexes the buffer out of range at the end-of-buffer position — an unrecovered panic",
 	Run: func(c *Ctx) []Ob {
 		var obs []Ob
 		target := c.SSAFunc(langserverPkg, "LspServer", "beginFileRequest")
@@ -592,7 +592,7 @@ var rulePanicP6 = &Rule{
 					}
 					n++
 					key := "PANIC/P6:" + fnKey(f)
-					guarded := false
+					guarded, weak := false, false
 					for _, b2 := range f.Blocks {
 						for _, i2 := range b2.Instrs {
 							bo, ok := i2.(*ssa.BinOp)
@@ -612,10 +612,19 @@ var rulePanicP6 = &Rule{
 								bi, ok := cl.Call.Value.(*ssa.Builtin)
 								return ok && bi.Name() == "len" && fieldOfResult(cl.Call.Args[0], call, "contents", 0)
 							}
-							if (fieldOfResult(bo.X, call, "offset", 0) && isLen(bo.Y)) || (fieldOfResult(bo.Y, call, "offset", 0) && isLen(bo.X)) {
-								if call.Block().Dominates(bo.Block()) {
-									guarded = true
-								}
+							// the comparison must keep offset == len(contents) out of the continuing path: the handlers'
+							// scanners read contents[offset]. `offset >= len` / `offset < len` (or mirrored) do;
+							// `offset > len` / `offset <= len` let the end-of-buffer position through
+							strict := false
+							if fieldOfResult(bo.X, call, "offset", 0) && isLen(bo.Y) {
+								strict = bo.Op == token.GEQ || bo.Op == token.LSS
+								weak = weak || !strict
+							} else if fieldOfResult(bo.Y, call, "offset", 0) && isLen(bo.X) {
+								strict = bo.Op == token.LEQ || bo.Op == token.GTR
+								weak = weak || !strict
+							}
+							if strict && call.Block().Dominates(bo.Block()) {
+								guarded = true
 							}
 						}
 					}
@@ -625,7 +634,11 @@ var rulePanicP6 = &Rule{
 					case reviewedCursorCallers[fnKey(f)] != "":
 						obs = append(obs, Ob{Key: key, Site: c.Pos(call.Pos()), Verdict: OK, Note: "reviewed exception: " + reviewedCursorCallers[fnKey(f)]})
 					default:
-						obs = append(obs, Ob{Key: key, Site: c.Pos(call.Pos()), Verdict: VIOLATION, Note: "uses the result of beginFileRequest without comparing offset with len(contents) (its siblings do): index out of range at the end-of-buffer position"})
+						note := "uses the result of beginFileRequest without comparing offset with len(contents) (its siblings do): index out of range at the end-of-buffer position"
+						if weak {
+							note = "compares offset with len(contents) but lets offset == len(contents) continue (its siblings stop at `offset >= len(contents)`): the scanners behind it read contents[offset] — index out of range at the end-of-buffer position"
+						}
+						obs = append(obs, Ob{Key: key, Site: c.Pos(call.Pos()), Verdict: VIOLATION, Note: note})
 					}
 				}
 			}
